@@ -73,3 +73,26 @@ pub struct SessionState {
     // used for pubrel in qos2
     pub unacked_pubrels: VecDeque<u16>,
 }
+
+#[cfg(rumqtt_verif)]
+impl Graveyard {
+    pub fn verif_snapshot(&self) -> serde_json::Value {
+        let mut m = serde_json::Map::new();
+        for (cid, saved) in self.connections.iter() {
+            let v = match &saved.session_state {
+                None => serde_json::Value::Null,
+                Some(s) => {
+                    let mut subs: Vec<_> = s.subscriptions.iter().cloned().collect();
+                    subs.sort();
+                    serde_json::json!({
+                        "reqs": s.tracker.data_requests.iter().map(super::verif_request).collect::<Vec<_>>(),
+                        "subs": subs,
+                        "pubrels": s.unacked_pubrels.iter().collect::<Vec<_>>(),
+                    })
+                }
+            };
+            m.insert(cid.clone(), v);
+        }
+        serde_json::Value::Object(m)
+    }
+}
